@@ -25,9 +25,9 @@ func init() {
 			"subscribers follow the contract (receive then Wait; unsubscribe promptly when no longer receiving)",
 		},
 		Families: []core.Family{
-			{Name: "dynamic-membership", N: core.TierN(600, 8000), Batch: 25, Run: c06Dynamic},
-			{Name: "no-sentinel", N: core.TierN(200, 2500), Batch: 25, Run: c06NoSentinel},
-			{Name: "last-leaves-mid-send", N: core.TierN(90, 900), Batch: 15, Run: c06LastLeaves},
+			{Name: "dynamic-membership", N: core.TierN(600, 32000), Batch: 25, Run: c06Dynamic},
+			{Name: "no-sentinel", N: core.TierN(200, 10000), Batch: 25, Run: c06NoSentinel},
+			{Name: "last-leaves-mid-send", N: core.TierN(90, 3600), Batch: 15, Run: c06LastLeaves},
 		},
 	})
 }
